@@ -305,6 +305,8 @@ class Driver:
         else:
             self._idle(rec, 0)
         rec['loop_errors'] = len(self.loop.errors)
+        if ev[0] != 'T' and ev[1] in self.conns:
+            rec['pending_after'] = len(self.store.pending.get(ev[1]) or [])
         rec['state'] = self.show_state()
         rec['asp'] = self.aspects()
         rec['snap'] = self.snapshot()
